@@ -1034,7 +1034,7 @@ Qed.
 (* the permission each non-editing gated message is MEANT to require *)
 Definition gate_perm_intended (k : gkind) : Z :=
   match k with GPoll => PermCreatePollProposal | GSubmit => PermCreateSetPoorNetworkMessagesProposal
-             | GVote => PermVoteSetPoorNetworkMessagesProposal | GDapp => PermCreateDappProposalWithoutBond end.
+             | GVote => PermVoteSetPoorNetworkMessagesProposal | GDapp => PermCreateDappProposalWithoutBond | GOther p _ => p end.
 (* full strength whenever layer2's wrapper hands the requested permission on *)
 Theorem gate_intended : forall c, dapp_perm c = PermCreateDappProposalWithoutBond ->
   forall s k x s', step c s (OGate k x) = Ok s' -> holds s x (gate_perm_intended k).
@@ -1300,4 +1300,130 @@ Proof.
   cbv zeta. split; [apply indexes_refine_guarded; [apply inv_empty|simpl; tauto]|].
   do 5 (split; [vm_compute; reflexivity|]).
   apply indexes_refine_guarded; [apply inv_empty|simpl; tauto].
+Qed.
+
+(* ------------------------------------------------------------------ blacklist beats whitelist along histories *)
+(* at every state of every history, whatever the roles and whitelists (instance of the state-level law) *)
+Theorem blacklist_beats_whitelist_history : forall c ops s a p,
+  blacklisted (run c s ops) a p -> check_allowed (run c s ops) a p = false.
+Proof. intros c ops s a p. apply blacklist_beats_whitelist. Qed.
+
+(* a personal blacklist entry survives every role / permission edit except its own removal, so the
+   actor is denied the permission after ANY such history, whatever is whitelisted meanwhile *)
+Definition keeps_own_bl (a p : Z) (o : op) : bool :=
+  match o with
+  | OExportImport | ORotate _ _ => false
+  | ORmBlAcc _ a' p' => negb ((a' =? a) && (p' =? p))
+  | _ => true
+  end.
+
+Lemma remove_first_other : forall x y l, In y l -> y <> x -> In y (remove_first x l).
+Proof.
+  intros x y l; induction l as [|z l IH]; simpl; [tauto|]. intros [->|H] Hne.
+  - destruct (Z.eqb_spec y x); [congruence|left; reflexivity].
+  - destruct (z =? x); [assumption|right; auto].
+Qed.
+
+Lemma bl_direct_same_actors : forall s s' a p, actors s' = actors s -> bl_direct s a p -> bl_direct s' a p.
+Proof. unfold bl_direct; intros s s' a p E H. rewrite E. exact H. Qed.
+Lemma bl_direct_upd : forall s s' a p a' act',
+  actors s' = upd a' act' (actors s) ->
+  (a' = a -> forall act, lookup a (actors s) = Some act -> In p (bl (a_perms act)) -> In p (bl (a_perms act'))) ->
+  bl_direct s a p -> bl_direct s' a p.
+Proof.
+  unfold bl_direct; intros s s' a p a' act' E H [act [El Hin]]. rewrite E, lookup_upd.
+  destruct (Z.eqb_spec a' a); [subst; exists act'; split; [reflexivity|eapply H; eauto]|exists act; auto].
+Qed.
+Lemma aod_found : forall s a act, lookup a (actors s) = Some act -> actor_or_default s a = act.
+Proof. unfold actor_or_default; intros s a act E; rewrite E; reflexivity. Qed.
+
+Lemma fold_out_actors : forall (f : state -> Z -> outcome state),
+  (forall st b st', f st b = Ok st' -> actors st' = actors st) ->
+  forall l st st', fold_out f st l = Ok st' -> actors st' = actors st.
+Proof.
+  intros f Hf l; induction l as [|b l IH]; intros st st' H; simpl in H; [inversion H; reflexivity|].
+  destruct (f st b) as [st1| |] eqn:E; simpl in H; try discriminate. rewrite (IH _ _ H). eapply Hf; eauto.
+Qed.
+Lemma role_edit_actors : forall s r p s',
+  (k_wl_role s r p = Ok s' \/ k_bl_role s r p = Ok s' \/ k_rm_wl_role s r p = Ok s' \/ k_rm_bl_role s r p = Ok s') -> actors s' = actors s.
+Proof.
+  intros s r p s' H. unfold k_wl_role, k_bl_role, k_rm_wl_role, k_rm_bl_role in H.
+  destruct H as [H|[H|[H|H]]];
+    match type of H with context [k_role_edit ?f s r p] => destruct (k_role_edit f s r p) end; simpl in H; try discriminate; inversion H; reflexivity.
+Qed.
+
+Lemma bl_direct_step : forall c s o a p, keeps_own_bl a p o = true -> bl_direct s a p -> bl_direct (step_total c s o) a p.
+Proof.
+  intros c s o a p K B. unfold step_total. destruct (step c s o) as [s'| |] eqn:H; try assumption.
+  destruct o; cbn [step] in H; simpl in K; try discriminate; try (apply gated_Ok in H).
+  - (* wl acc *) unfold k_add_wl_acc in H. destruct (add_wl p0 _) as [ps|] eqn:E; simpl in H; [|discriminate]. inversion H; subst s'.
+    apply add_wl_Some in E. destruct E as [_ [_ ->]]. eapply bl_direct_upd; [reflexivity| |exact B].
+    intros -> act El Hin. rewrite (aod_found _ _ _ El). exact Hin.
+  - unfold k_add_bl_acc in H. destruct (add_bl p0 _) as [ps|] eqn:E; simpl in H; [|discriminate]. inversion H; subst s'.
+    apply add_bl_Some in E. destruct E as [_ [_ ->]]. eapply bl_direct_upd; [reflexivity| |exact B].
+    intros -> act El Hin. rewrite (aod_found _ _ _ El). cbn [a_perms bl]. apply in_or_app; left; exact Hin.
+  - unfold k_rm_wl_acc in H. destruct (rm_wl p0 _) as [ps|] eqn:E; simpl in H; [|discriminate]. inversion H; subst s'.
+    apply rm_wl_Some in E. subst ps. eapply bl_direct_upd; [reflexivity| |exact B].
+    intros -> act El Hin. rewrite (aod_found _ _ _ El). exact Hin.
+  - unfold k_rm_bl_acc in H. destruct (rm_bl p0 _) as [ps|] eqn:E; simpl in H; [|discriminate]. inversion H; subst s'.
+    apply rm_bl_Some in E. subst ps. eapply bl_direct_upd; [reflexivity| |exact B].
+    intros -> act El Hin. rewrite (aod_found _ _ _ El). cbn [a_perms bl]. apply remove_first_other; [exact Hin|].
+    intros ->. rewrite !Z.eqb_refl in K. discriminate.
+  - eapply bl_direct_same_actors; [|exact B]. eapply role_edit_actors; eauto.
+  - eapply bl_direct_same_actors; [|exact B]. eapply role_edit_actors; eauto.
+  - eapply bl_direct_same_actors; [|exact B]. eapply role_edit_actors; eauto 6.
+  - eapply bl_direct_same_actors; [|exact B]. eapply role_edit_actors; eauto 6.
+  - (* create role *) eapply bl_direct_same_actors; [|exact B].
+    unfold create_role_checked in H. destruct (role_by_sid s sid); cbn [bind] in H; [discriminate|].
+    destruct (fold_out _ (fst (k_create_role s sid)) w) as [s1| |] eqn:E1; cbn [bind] in H; try discriminate.
+    rewrite (fold_out_actors _ (fun st b0 st' HK => role_edit_actors st _ b0 st' (or_intror (or_introl HK))) _ _ _ H).
+    rewrite (fold_out_actors _ (fun st b0 st' HK => role_edit_actors st _ b0 st' (or_introl HK)) _ _ _ E1). reflexivity.
+  - destruct (role_by_sid s sid); [discriminate|]. inversion H; subst. eapply bl_direct_same_actors; [|exact B]. reflexivity.
+  - unfold k_assign in H. destruct (lookup r (rperms s)); [|discriminate]. destruct (mem r _); [discriminate|]. inversion H; subst s'.
+    eapply bl_direct_upd; [reflexivity| |exact B]. intros -> act El Hin. rewrite (aod_found _ _ _ El). unfold set_role. destruct (mem r (a_roles act)); exact Hin.
+  - unfold k_unassign in H. destruct (lookup r (rperms s)); [|discriminate]. destruct (mem r _); [|discriminate]. inversion H; subst s'.
+    eapply bl_direct_upd; [reflexivity| |exact B]. intros -> act El Hin. rewrite (aod_found _ _ _ El). exact Hin.
+  - (* claim councilor *)
+    destruct (lookup a0 (actors s)) as [act0|] eqn:Ea; [|discriminate]. destruct (claim_indexed c).
+    + destruct (k_add_wl_acc s a0 PermCreatePollProposal) as [s1| |] eqn:Ek; inversion H; subst; try exact B.
+      unfold k_add_wl_acc in Ek. destruct (add_wl _ _) as [ps|] eqn:E; simpl in Ek; [|discriminate]. inversion Ek; subst s'.
+      apply add_wl_Some in E. destruct E as [_ [_ ->]]. eapply bl_direct_upd; [reflexivity| |exact B].
+      intros -> act El Hin. rewrite (aod_found _ _ _ El). exact Hin.
+    + destruct (add_wl PermCreatePollProposal (a_perms act0)) as [ps|] eqn:E; inversion H; subst; try exact B.
+      apply add_wl_Some in E. destruct E as [_ [_ ->]]. eapply bl_direct_upd; [reflexivity| |exact B].
+      intros -> act El Hin. rewrite Ea in El. inversion El; subst. exact Hin.
+  - inversion H; subst; exact B.
+Qed.
+
+Theorem own_blacklist_denies_after_any_edits : forall c ops s a p,
+  forallb (keeps_own_bl a p) ops = true -> bl_direct s a p ->
+  bl_direct (run c s ops) a p /\ check_allowed (run c s ops) a p = false.
+Proof.
+  intros c ops; induction ops as [|o r IH]; intros s a p K B; simpl in *.
+  - split; [exact B|apply blacklist_beats_whitelist; left; exact B].
+  - apply andb_true_iff in K. destruct K as [K1 K2]. apply IH; [exact K2|apply bl_direct_step; assumption].
+Qed.
+
+(* genesis import as a step: with role blacklists re-imported it changes nobody's holdings *)
+Theorem import_step_preserves_holdings : forall c s s', import_role_bl c = true -> inv s ->
+  step c s OExportImport = Ok s' -> inv s' /\ forall a p, check_allowed s' a p = check_allowed s a p.
+Proof.
+  intros c s s' Hb I H. cbn [step] in H. rewrite Hb in H. inversion H; subst. split; [apply import_inv; assumption|].
+  intros a p. apply import_preserves_holdings; assumption.
+Qed.
+
+(* voters along histories of the repaired variant *)
+Theorem voters_exact_history : forall c, claim_indexed c = true -> rotate_fixed c = true ->
+  forall ops s p, inv s -> fresh_targets c s ops ->
+  exists l, voters (run c s ops) p = Ok l /\ NoDup l /\ forall a, In a l <-> whitelisted (run c s ops) a p.
+Proof. intros c Hc Hr ops s p I F. apply voters_exact. apply indexes_refine_repaired; assumption. Qed.
+
+Lemma incl_both_sound : forall l m, incl_strb l m && incl_strb m l = true -> incl l m /\ incl m l.
+Proof. intros l m H. apply andb_true_iff in H. destruct H; split; apply incl_strb_sound; assumption. Qed.
+Lemma gates_complete_sound : forall g eg p ep (errs : list string),
+  incl_strb eg g && incl_strb ep p && (match errs with [] => true | _ => false end) = true ->
+  incl eg g /\ incl ep p /\ errs = [].
+Proof.
+  intros g eg p ep errs H. apply andb_true_iff in H. destruct H as [H H3]. apply andb_true_iff in H. destruct H as [H1 H2].
+  split; [apply incl_strb_sound; assumption|]. split; [apply incl_strb_sound; assumption|]. destruct errs; [reflexivity|discriminate].
 Qed.
